@@ -41,6 +41,10 @@ prop("C05", "exploration",
      "exhaustive product of all small reachable replica states (incl. stale by-key index rows) x the full query parameter product, each result compared with a list-comprehension oracle over the reference dump",
      "8640 queries (kind x author filter x key filter x direction x include-empty x offset x limit) plus all point lookups on every state reachable from <=3 (quick) / <=4 (thorough) offered entries of a two-author universe with empty, prefix-related and 0xFF-edged keys.",
      "States with at most 4 offered entries; ties for the greatest timestamp in latest-per-key accept any tied entry.")
+prop("C06", "fault_enumeration",
+     "exhaustive fault enumeration on the real write path: every operation history up to a depth x every placement of <=2 'transaction is old' answers among the numbered store access points x a crash image at every access point and after every operation, each distinct image reopened and compared with the reference states",
+     "For every history of <=4 (quick) / <=5 (thorough) operations on a real file-backed store, every placement of up to two age-based commits between the internal store calls is forced through the access-point hook and the database file is copied at every access point; every distinct image must reopen to a state the store passed through between two complete operations and not older than the last acknowledged flush, with records, by-key index, heads, lookups, namespaces and authors mutually consistent.",
+     "Crash = process kill (file image as the OS holds it); power loss / torn sectors / crashes inside redb's commit are redb's contract.")
 prop("C07", "model_checking",
      "explicit-state breadth-first search (canonical state taken from the implementation, de-duplicated) over capability imports, opens, closes, write attempts, secret export and store reopen on the real Store and on the real store actor, against a max-capability reference model",
      "Every (state, event) edge of the capability state machine for two documents up to depth 7/6 (quick) and 10/9 (thorough) is executed on a file-backed Store and through SyncHandle; listed kinds, export_secret_key, write outcomes and both documents' entries must equal the model after every event; importing for one document must not change the other.",
